@@ -78,6 +78,21 @@ fn opname(op: &Value) -> &str {
     op["op"].as_str().unwrap_or("")
 }
 
+/// The model continues only ONE of the paths that reach a state (TLC extends one path per VIEW state), so an
+/// edge ending in a clear or a copy may be the only edge with *this* prior history and carries no continuation
+/// of its own.  The values pushed anywhere before position `k` (first occurrence of each, with the form the
+/// path used) are pushed again as a synthetic continuation: the specification says that the cleared region is
+/// the initial state and that a copy is its source, so every such continuation has to be answered alike.
+fn synthetic_pushes(path: &[Value], k: usize) -> Vec<Value> {
+    let mut out: Vec<Value> = vec![];
+    for op in &path[..k] {
+        if opname(op) == "push" && !out.iter().any(|o| o["v"] == op["v"]) {
+            out.push(op.clone());
+        }
+    }
+    out
+}
+
 fn short(v: &Value) -> String {
     let s = v.to_string();
     s.chars().take(300).collect()
@@ -276,6 +291,17 @@ pub fn judge(edge: &Value, prop: &str) -> Verdict {
             }
             let mut twin_path = path.clone();
             twin_path[k] = json!({"op": "fresh", "s": s + 1});
+            let mut path = path.clone();
+            let mut steps = steps;
+            if k + 1 == n {
+                for mut op in synthetic_pushes(&path, k) {
+                    op["s"] = json!(s + 1);
+                    path.push(op.clone());
+                    twin_path.push(op);
+                }
+                steps = run(subj, nslots, &path).1;
+            }
+            let n = path.len();
             let (_w2, steps2) = run(subj, nslots, &twin_path);
             for j in k..n {
                 let (a, b) = (&steps[j], &steps2[j]);
@@ -354,6 +380,27 @@ pub fn judge(edge: &Value, prop: &str) -> Verdict {
                 if !same_result || !content_eq(&xd, &xs) {
                     v.fail("copy-continues-differently", json!({"step": j, "op": op, "copy": {"res": short(&json!(rd.ok())), "obs": xd}, "original": {"res": short(&json!(rs.ok())), "obs": xs}}));
                     return v;
+                }
+            }
+            // (d) the copy was the last step: a synthetic continuation over every value pushed before it
+            if k + 1 == n {
+                for op in synthetic_pushes(path, k) {
+                    let mut od = op.clone();
+                    od["s"] = json!(d + 1);
+                    let mut os = op.clone();
+                    os["s"] = json!(s + 1);
+                    let rd = w3.apply(&od);
+                    let rs = w3.apply(&os);
+                    let (xd, xs) = (w3.observe_slot(d), w3.observe_slot(s));
+                    let same_result = match (&rd, &rs) {
+                        (Ok(a), Ok(b)) => a == b,
+                        (Err(_), Err(_)) => true,
+                        _ => false,
+                    };
+                    if !same_result || !content_eq(&xd, &xs) {
+                        v.fail("copy-continues-differently", json!({"synthetic": true, "op": op, "copy": {"res": short(&json!(rd.ok())), "obs": xd}, "original": {"res": short(&json!(rs.ok())), "obs": xs}}));
+                        return v;
+                    }
                 }
             }
         }
@@ -550,6 +597,13 @@ pub fn judge(edge: &Value, prop: &str) -> Verdict {
                     "push" | "push_from" => {
                         if fin[t]["used"].as_i64() < before["used"].as_i64() {
                             v.fail("used-decreased-on-push", json!({"before": before["used"], "after": fin[t]["used"]}));
+                        }
+                        // every branch the push stored into contributes: the reported bytes grow by at least what
+                        // the push added to the lower bound (payload bytes and index entries, after deduplication)
+                        if let (Some(a), Some(b), Some(dlb)) = (fin[t]["used"].as_i64(), before["used"].as_i64(), edge["res"]["dlb"].as_i64()) {
+                            if steps[n - 1].result.is_ok() && a - b < dlb {
+                                v.fail("push-not-fully-accounted", json!({"before": b, "after": a, "lower_bound_grew_by": dlb, "op": last}));
+                            }
                         }
                     }
                     "clear" => {
